@@ -234,3 +234,61 @@ impl<'a, K: Eq, V> Entry<'a, K, V> {
         &mut self.map.slot_mut(idx).expect("slot just filled").1
     }
 }
+
+// ---------------------------------------------------------------------------------------------------
+// Vec-backed variant, used for the maps of ModuleTypes only (src/ir/module/module_types.rs): their keys /
+// values are large (`Types` owns boxed slices and vectors) and moving them through the 8-way if-chains of the
+// slot model is what costs (measured: Module::default() + add_local_func_with_tag 420 s with slots, 9 s with
+// the Vec).  These maps are built by a concrete sequence of inserts, so the Vec never has a symbolic length.
+
+#[derive(Clone, Debug)]
+pub struct VecHashMap<K, V> { items: Vec<(K, V)> }
+pub type VecValues<'a, K, V> = std::iter::Map<std::slice::Iter<'a, (K, V)>, fn(&'a (K, V)) -> &'a V>;
+
+impl<K, V> Default for VecHashMap<K, V> { fn default() -> Self { VecHashMap { items: Vec::new() } } }
+
+impl<K: Eq, V> VecHashMap<K, V> {
+    pub fn new() -> Self { VecHashMap { items: Vec::new() } }
+    fn pos(&self, k: &K) -> Option<usize> {
+        let mut i = 0;
+        while i < self.items.len() { if self.items[i].0 == *k { return Some(i); } i += 1; }
+        None
+    }
+    pub fn insert(&mut self, k: K, v: V) -> Option<V> {
+        match self.pos(&k) {
+            Some(i) => Some(std::mem::replace(&mut self.items[i].1, v)),
+            None => { self.items.push((k, v)); None }
+        }
+    }
+    pub fn get(&self, k: &K) -> Option<&V> { self.pos(k).map(|i| &self.items[i].1) }
+    pub fn get_mut(&mut self, k: &K) -> Option<&mut V> { match self.pos(k) { Some(i) => Some(&mut self.items[i].1), None => None } }
+    pub fn contains_key(&self, k: &K) -> bool { self.pos(k).is_some() }
+    pub fn remove(&mut self, k: &K) -> Option<V> { self.pos(k).map(|i| self.items.remove(i).1) }
+    pub fn len(&self) -> usize { self.items.len() }
+    pub fn is_empty(&self) -> bool { self.items.is_empty() }
+    pub fn clear(&mut self) { self.items.clear() }
+    pub fn iter(&self) -> impl Iterator<Item = (&K, &V)> { self.items.iter().map(|(k, v)| (k, v)) }
+    pub fn keys(&self) -> impl Iterator<Item = &K> { self.items.iter().map(|(k, _)| k) }
+    pub fn values(&self) -> VecValues<'_, K, V> { fn f<'a, K, V>(kv: &'a (K, V)) -> &'a V { &kv.1 } self.items.iter().map(f::<K, V> as fn(&(K, V)) -> &V) }
+    pub fn entry(&mut self, k: K) -> VecEntry<'_, K, V> { let p = self.pos(&k); VecEntry { map: self, key: k, pos: p } }
+}
+impl<K: Eq, V, const N: usize> From<[(K, V); N]> for VecHashMap<K, V> {
+    fn from(arr: [(K, V); N]) -> Self { let mut m = VecHashMap::new(); for (k, v) in arr { m.insert(k, v); } m }
+}
+impl<K: Eq, V> std::ops::Index<&K> for VecHashMap<K, V> {
+    type Output = V;
+    fn index(&self, k: &K) -> &V { self.get(k).expect("no entry found for key") }
+}
+pub struct VecEntry<'a, K, V> { map: &'a mut VecHashMap<K, V>, key: K, pos: Option<usize> }
+impl<'a, K: Eq, V> VecEntry<'a, K, V> {
+    pub fn and_modify<F: FnOnce(&mut V)>(self, f: F) -> Self {
+        if let Some(i) = self.pos { f(&mut self.map.items[i].1); }
+        self
+    }
+    pub fn or_insert(self, v: V) -> &'a mut V {
+        match self.pos {
+            Some(i) => &mut self.map.items[i].1,
+            None => { self.map.items.push((self.key, v)); let n = self.map.items.len() - 1; &mut self.map.items[n].1 }
+        }
+    }
+}
